@@ -361,6 +361,140 @@ def gen_nonuniform_edge(rng, cls):
     raise RuntimeError('no nonuniform-edge case found')
 
 
+# ------------------------------------------------------------- large inputs (own classes, drawn only when asked for)
+#
+# Sizes past the round numbers software chunks at.  These cases are judged by the oracles only (never sent to
+# Coq: reading tens of thousands of literals dominates).
+
+CHUNKS = [1000, 1024, 4096, 8192, 10000, 32768, 65536]
+
+
+def round_indices(chunks=(1000, 1024), multiples=(1, 2, 3), around=(-1, 0, 1), extra=(4095, 4096, 4097)):
+    """0-based indices sitting on / one beside the multiples of the chunk sizes."""
+    return sorted({m * c + d for c in chunks for m in multiples for d in around} | set(extra))
+
+
+def gen_et_hole_large(rng, idx, lead=None):
+    """A well-formed triple with more than `idx` grid steps whose evapotranspiration record lacks exactly ONE
+    grid instant: the one with 0-based index `idx` on the time grid (idx sits on / beside a multiple of a chunk
+    size: see round_indices).  With lead > 0 the rainfall and ET files begin `lead` records before the water level,
+    so that the index in the files differs from the index on the grid.  The record is not a multiple of any chunk
+    size long.  Water level on the rainfall step or coarser (keeps the files small), sorted or in another row
+    order."""
+    step = rng.choice([60, 300, 600, 900, 1800, 3600, 1200])
+    base = rng.choice(BASES) + rng.randrange(0, 86400)
+    if lead is None:
+        lead = rng.choice([0, 0, 1, 3, 17])
+    tail = rng.choice([1, 2, 3, 7, 40, 150])          # grid steps after the hole
+    n_grid = idx + 1 + tail
+    while any(n_grid % c == 0 or (n_grid + 1) % c == 0 for c in CHUNKS):
+        n_grid += 1
+    rain_t = [base + (k - lead) * step for k in range(n_grid + lead + rng.choice([0, 0, 2]))]
+    k = rng.choice([1, 1, 2, 4])
+    m = -(-(n_grid - 1) // k)                          # water level from grid[0] to at least grid[n_grid - 1]
+    wl_t = [base + j * k * step for j in range(m + 1)]
+    grid = span_grid(rain_t, wl_t)
+    closing = grid[-1] + step
+    hole = grid[idx]
+    et_t = sorted((set(rain_t) | {closing, rain_t[-1] + step}) - {hole})
+    z = rng.choice([-400.0, -50.0, -3.0])
+    wl = []
+    for t in wl_t:
+        z += (rng.random() - 0.5) * 2.0
+        wl.append([t, '%.1f' % z])
+    rain = [[t, '0' if rng.random() < 0.7 else '%.1f' % (10 * rng.random())] for t in rain_t]
+    et = [[t, '0.1' if rng.random() < 0.5 else '%.3f' % (0.4 * rng.random())] for t in et_t]
+    return dict(cls='et_hole_at_round_index', tz='UTC', pre=None, step=step, hole_index=idx, lead=lead,
+                rain=order_rows(rng, rain), et=order_rows(rng, et), wl=order_rows(rng, wl))
+
+
+def gen_long_record(rng, which, n_rows, holes=0):
+    """A well-formed triple in which the file `which` ('wl' / 'rain') has n_rows data rows (choose n_rows past a
+    chunk size, not a multiple of it).  'wl': the water level is logged `fine` times per rainfall step (5 / 10 / 15
+    minutes under hourly or half-hourly rain), so a source row that goes missing shows as a gap of the record
+    (two labels on one stretch, or a grid instant without water level).  'rain': rainfall, ET and water level all
+    on one step.  `holes` genuine gaps (1-3 missing samples each) are cut into the water-level record, the first
+    one right across the first chunk boundary of the file, so that gap handling is exercised at that size too.
+    Rows sorted in time (a logger file), or two sorted blocks swapped."""
+    if which == 'wl':
+        fine = rng.choice([2, 3, 4, 6, 12])
+        step = rng.choice([1800, 3600, 7200])
+        while step % fine:
+            fine = rng.choice([2, 3, 4, 6, 12])
+        fs = step // fine
+        n_wl = n_rows
+    else:
+        fine, step = 1, rng.choice([60, 300, 600])
+        fs = step
+        n_wl = n_rows - rng.choice([0, 1, 5])
+    base = rng.choice([946684800, 1583020800, 1711846800, 86400 * 365 * 60]) + rng.randrange(0, 86400) // fs * fs
+    phase = rng.choice([0, 0, rng.randrange(fine)])             # the first sample is / is not a grid instant
+    wl_t = [base + (j - phase) * fs for j in range(n_wl + 8 * holes)]
+    cut = set()
+    for h in range(holes):
+        bounds = [c for c in CHUNKS if 8 < c < len(wl_t) - 8]
+        at = (rng.choice(bounds) if h else min(bounds, key=lambda c: abs(c - 65536))) if bounds else len(wl_t) // 2
+        ln = rng.choice([1, 2, 3])
+        s = at - rng.randrange(0, ln + 1)
+        cut |= set(range(max(1, s), min(len(wl_t) - 1, s + ln)))
+    wl_t = [t for j, t in enumerate(wl_t) if j not in cut][:n_wl]
+    lead = rng.choice([0, 1, 3])
+    n_rain = (wl_t[-1] - base) // step + 1 + lead + rng.choice([0, 1, 2])
+    if which == 'rain':
+        n_rain = n_rows
+    rain_t = [base + (k - lead) * step for k in range(n_rain)]
+    grid = span_grid(rain_t, wl_t)
+    et_t = sorted(set(rain_t) | {grid[-1] + step, rain_t[-1] + step})
+    z = rng.choice([-400.0, -50.0, -3.0])
+    wl = []
+    for t in wl_t:
+        z += (rng.random() - 0.5) * 2.0
+        wl.append([t, '%.1f' % z])
+    rain = [[t, '0' if rng.random() < 0.8 else '%.1f' % (10 * rng.random())] for t in rain_t]
+    et = [[t, '0.1' if rng.random() < 0.5 else '%.3f' % (0.4 * rng.random())] for t in et_t]
+
+    def order(rows):
+        if rng.random() < 0.3 and len(rows) > 3:
+            c = rng.randrange(1, len(rows))
+            return rows[c:] + rows[:c]
+        return rows
+    return dict(cls='long_' + which, tz='UTC', pre=None, step=step, fine=fine,
+                rain=order(rain), et=order(et), wl=order(wl))
+
+
+# ------------------------------------------------------------- records over a change of the zone's UTC offset
+
+def gen_across_transition(rng, transition, cls=None):
+    """A well-formed triple, uniform in UTC, laid over the instant `transition` (a change of the UTC offset of the
+    zone the files will be written in) such that the three files do NOT all begin on the same side of it: one or
+    two of them are cut down to the rows at / after the transition.  Returns the case (tz still 'UTC': the caller
+    sets the zone and decides whether every instant can be written on that zone's clock) with case['starts'] =
+    which files begin before the transition."""
+    step = rng.choice([300, 600, 900, 1200, 1800, 3600, 7200, 10800])
+    n = rng.choice([9, 14, 20, 28, 40])
+    k = rng.randrange(2, n - 3)
+    base = transition - k * step + rng.choice([0, 0, rng.randrange(step)])
+    cls = cls or rng.choice(['same', 'coarser', 'finer', 'nonaligned', 'same_gappy', 'wl_outlasts', 'finer_gappy'])
+    c = gen_valid(rng, cls, step=step, base=base, n_rain=n)
+    how = rng.choice(['wl_after', 'wl_after', 'rain_after', 'et_after', 'rain_et_after', 'wl_et_after', 'rain_wl_after',
+                      'none'])
+    if how in ('rain_after', 'rain_et_after'):
+        # the water level must begin before the transition for the starts to differ
+        if min(t for t, _ in c['wl']) >= transition:
+            how = 'wl_after'
+    if how in ('wl_after', 'wl_et_after', 'rain_wl_after'):
+        c['wl'] = [r for r in c['wl'] if r[0] >= transition]
+    if how in ('rain_after', 'rain_et_after', 'rain_wl_after'):
+        c['rain'] = [r for r in c['rain'] if r[0] >= transition]
+    if how in ('et_after', 'rain_et_after', 'wl_et_after'):
+        grid = span_grid([t for t, _ in c['rain']], [t for t, _ in c['wl']])
+        lo = min([transition] + grid[:1])
+        c['et'] = [r for r in c['et'] if r[0] >= lo]
+    c['cls'] = 'across_transition'
+    c['how'] = how
+    return c
+
+
 def gen_case(rng, cls):
     if cls in VALID_CLASSES:
         return gen_valid(rng, cls)
